@@ -855,7 +855,7 @@ def run(ctx: Ctx) -> Result:
         "case = (operator, operand specs, arguments); non-trivial = operands hold >= 2 gates or a Fourier list of >= 2 qubits"
     )
     cases = systematic_cases()
-    n_rand = 6000 if ctx.thorough else 900
+    n_rand = 9000 if ctx.thorough else 900
     for k in range(n_rand):
         cases.append(random_case(rng, k, ctx.thorough))
     observed = []
